@@ -182,13 +182,87 @@ def join : TRes → TRes → Option TRes
   | r, .failed => some r
   | .ok a, .ok b => if a = b then some (.ok a) else none
 
+def natTy : Ty → Option Ty
+  | .bytes => some .nat
+  | _ => none
+
+def bytesTy : Ty → Option Ty
+  | .nat | .int => some .bytes
+  | _ => none
+
+def votingPowerTy : Ty → Option Ty
+  | .keyHash => some .nat
+  | _ => none
+
+def hashKeyTy : Ty → Option Ty
+  | .key => some .keyHash
+  | _ => none
+
+def addressTy : Ty → Option Ty
+  | .contract _ => some .address
+  | _ => none
+
+def implicitAccountTy : Ty → Option Ty
+  | .keyHash => some (.contract .unit)
+  | _ => none
+
+def contractTy (t : Ty) : Ty → Option Ty
+  | .address => some (.option (.contract t))
+  | _ => none
+
+def setDelegateTy : Ty → Option Ty
+  | .option .keyHash => some .operation
+  | _ => none
+
+def emitTy (t : Ty) (a : Ty) : Option Ty := if a = t then some .operation else none
+
+/-- the packable types of the model: the plain data classes (numbers, strings, bytes, unit, bool and pairs / options /
+unions / lists / sets / maps of them); addresses, keys, lambdas, contract handles have a packed form too, but it needs
+Base58 decoding / code serialization: outside the model -/
+def packable : Ty → Bool
+  | .unit | .bool | .int | .nat | .mutez | .timestamp | .string | .bytes => true
+  | .option t | .list t | .set t => packable t
+  | .or a b | .pair a b | .map a b => packable a && packable b
+  | _ => false
+
+def packTy (a : Ty) : Option Ty := if packable a then some .bytes else none
+
+/-- extension 2, the rules of the form `i :: a : S ⇒ r : S`: result type for the operand type -/
+def unTy (i : Instr) (a : Ty) : Option Ty :=
+  match i with
+  | .NAT => natTy a
+  | .BYTES => bytesTy a
+  | .VOTING_POWER => votingPowerTy a
+  | .HASH_KEY => hashKeyTy a
+  | .ADDRESS => addressTy a
+  | .IMPLICIT_ACCOUNT => implicitAccountTy a
+  | .CONTRACT t _ => contractTy t a
+  | .SET_DELEGATE => setDelegateTy a
+  | .EMIT _ t => emitTy t a
+  | .PACK => packTy a
+  | _ => none
+
+/-- TRANSFER_TOKENS: `p : mutez : contract p : S ⇒ operation : S` -/
+def transferTokensTy : Ty → Ty → Ty → Option Ty
+  | p, .mutez, .contract t => if p = t then some .operation else none
+  | _, _, _ => none
+
+/-- the rules of extension 2 -/
+def stepExt : Instr → List Ty → Option TRes
+  | .NEVER, .never :: _ => some .failed      -- `NEVER :: never : A ⇒ B` for every `B`: like FAILWITH, nothing follows
+  | .SELF _ t, s => some (.ok (.contract t :: s))      -- `t`: the type of that entrypoint of the contract's parameter
+  | .TRANSFER_TOKENS, a :: b :: c :: s => (transferTokensTy a b c).map fun t => .ok (t :: s)
+  | .TRANSFER_TOKENS, _ => none
+  | i, a :: s => (unTy i a).map fun t => .ok (t :: s)
+  | _, [] => none
+
 def stepMore : Instr → List Ty → Option TRes
   | .TOTAL_VOTING_POWER, s | .MIN_BLOCK_TIME, s => some (.ok (.nat :: s))
   | .BLAKE2B, .bytes :: s | .SHA256, .bytes :: s | .SHA512, .bytes :: s | .KECCAK, .bytes :: s | .SHA3, .bytes :: s =>
     some (.ok (.bytes :: s))
   | .CAST t, a :: s => if a = t then some (.ok (a :: s)) else none
   | .RENAME, a :: s => some (.ok (a :: s))
-  | _, _ => none
+  | i, s => stepExt i s
 
 def step : Instr → List Ty → Option TRes
   | .DROP, _ :: s => some (.ok s)
@@ -233,6 +307,7 @@ def step : Instr → List Ty → Option TRes
   | .ABS, .int :: s => some (.ok (.nat :: s))
   | .ISNAT, .int :: s => some (.ok (.option .nat :: s))
   | .INT, .nat :: s => some (.ok (.int :: s))
+  | .INT, .bytes :: s => some (.ok (.int :: s))
   | .COMPARE, a :: b :: s => if a = b ∧ simpleComparable a then some (.ok (.int :: s)) else none
   | .EQ, .int :: s | .NEQ, .int :: s | .LT, .int :: s | .GT, .int :: s | .LE, .int :: s | .GE, .int :: s =>
     some (.ok (.bool :: s))
@@ -343,6 +418,12 @@ mutual
     | .bytes _, .bytes => true
     | .atom .address _, .address => true
     | .atom .chainId _, .chainId => true
+    | .atom .keyHash _, .keyHash => true
+    | .atom .key _, .key => true
+    | .contract t' _, .contract t => t' = t
+    | .opTransfer _ _ _ _ p pty, .operation => checkVal strictMap p pty
+    | .opDelegate _ _, .operation => true
+    | .opEmit _ _ t p, .operation => checkVal strictMap p t
     | .pair a b, .pair ta tb => checkVal strictMap a ta && checkVal strictMap b tb
     | .some v, .option t => checkVal strictMap v t
     | .none t', .option t => t' = t
